@@ -92,5 +92,10 @@ func TestVerifC01(t *testing.T) {
 		c01Scenario("tdc-udp-c2-seq2-dup-stray", tOpt{Kind: "tdc-udp", Callers: 2, Seq: 2, Srv: srvOpt{Reorder: true, Dup: 1, Stray: 1}}, d3),
 		c01Scenario("reuse-c1-seq3-srvclose", tOpt{Kind: "reuse", Callers: 1, Seq: 3, IDs: []uint16{0, 0xFFFF, 0}, Srv: srvOpt{CloseBudget: 1}}, d),
 	}
+	// a server that pauses inside a reply frame for longer than the idle timeout; the tail of the
+	// frame, taken alone, looks like a reply to the other outstanding query
+	scs = append(scs,
+		c01Scenario("tdc-tcp-c2-stall-in-frame", tOpt{Kind: "tdc-tcp", Callers: 2, IdleTimeout: 2 * time.Second, Srv: srvOpt{Reorder: true, SplitStall: 3 * time.Second}}, d),
+		c01Scenario("tdc-tcp-c3-stall-in-frame", tOpt{Kind: "tdc-tcp", Callers: 3, IDs: []uint16{0, 0xFFFF, 0xFFFF}, IdleTimeout: 2 * time.Second, Srv: srvOpt{AnswerAll: true, SplitStall: 3 * time.Second}}, d3))
 	vr.RunScenarios("C01", scs)
 }
